@@ -97,11 +97,12 @@ type RespRec struct {
 	Calls    []ClientCall `json:"calls"`
 }
 
-const notaryName = "notary.example.org"
-const notaryKeyID = "ed25519:p1"
+func notaryName() string      { return string(serverName("notary")) }
+func notaryKeyID() gmsl.KeyID { return edKeyID("p1") }
 
 func init() {
 	hx.Register("c12resp", "replay KeyResponse_gen records against CheckKeys / PublicKey / the real fetchers", func(a *hx.Args) error {
+		setVocab(a.Seed)
 		return hx.ReplayAll(a, func(i int, raw json.RawMessage) hx.Result {
 			var rec RespRec
 			if err := json.Unmarshal(raw, &rec); err != nil {
@@ -145,7 +146,11 @@ func (rc *respCtx) build(r Resp) gmsl.ServerKeys {
 	}
 	old := map[string]interface{}{}
 	for _, k := range r.Old {
-		old[string(edKeyID(k.Kid))] = map[string]interface{}{
+		oid := edKeyID(k.Kid)
+		if k.Kid == "rsa" {
+			oid = respKeyID(k.Kid, "rsa")
+		}
+		old[string(oid)] = map[string]interface{}{
 			"key":        spec.Base64Bytes(keyFor(rc.seed, r.Name, k.Key).pub),
 			"expired_ts": rc.ms(k.Exp),
 		}
@@ -156,12 +161,35 @@ func (rc *respCtx) build(r Resp) gmsl.ServerKeys {
 		"verify_keys":     verify,
 		"old_verify_keys": old,
 	}
+	// members that must have no effect (they are covered by the signatures like everything else)
+	switch (rc.seed + int64(len(r.VKeys)) + int64(len(r.Old))) % 3 {
+	case 1:
+		body["tls_fingerprints"] = []interface{}{map[string]string{"sha256": "I2ohBnqpb5m3HldWFwyA10WdjqDksukiKVUdZ690WzM"}}
+	case 2:
+		body["org.example.unknown"] = map[string]interface{}{"expired_ts": 1, "valid_until_ts": 2, "key": "x"}
+		if len(r.Old) == 0 {
+			delete(body, "old_verify_keys") // absent instead of empty
+		}
+	}
 	msg, err := json.Marshal(body)
 	if err != nil {
 		panic(err)
 	}
 	for _, k := range r.VKeys {
 		id := respKeyID(k.Kid, k.Alg)
+		if r.Name == "notary" && k.Kid == "p1" {
+			// notary = origin: ONE signature under the notary's key ID plays both roles
+			signer := "imposter"
+			if r.NSig == "good" {
+				signer = "P1"
+			} else if k.Sig == "good" {
+				signer = k.Key
+			}
+			if msg, err = gmsl.SignJSON(name, id, keyFor(rc.seed, "notary", signer).priv, msg); err != nil {
+				panic(err)
+			}
+			continue
+		}
 		switch k.Sig {
 		case "good":
 			msg, err = gmsl.SignJSON(name, id, keyFor(rc.seed, r.Name, k.Key).priv, msg)
@@ -172,13 +200,17 @@ func (rc *respCtx) build(r Resp) gmsl.ServerKeys {
 			panic(err)
 		}
 	}
-	switch r.NSig {
+	nsig := r.NSig
+	if r.Name == "notary" {
+		nsig = "" // already placed above
+	}
+	switch nsig {
 	case "good":
-		msg, err = gmsl.SignJSON(notaryName, notaryKeyID, keyFor(rc.seed, "notary", "P1").priv, msg)
+		msg, err = gmsl.SignJSON(notaryName(), notaryKeyID(), keyFor(rc.seed, "notary", "P1").priv, msg)
 	case "bad":
-		msg, err = gmsl.SignJSON(notaryName, notaryKeyID, keyFor(rc.seed, "notary", "imposter").priv, msg)
+		msg, err = gmsl.SignJSON(notaryName(), notaryKeyID(), keyFor(rc.seed, "notary", "imposter").priv, msg)
 	case "unknown":
-		msg, err = gmsl.SignJSON(notaryName, "ed25519:px", keyFor(rc.seed, "notary", "PX").priv, msg)
+		msg, err = gmsl.SignJSON(notaryName(), "ed25519:px", keyFor(rc.seed, "notary", "PX").priv, msg)
 	}
 	if err != nil {
 		panic(err)
@@ -234,6 +266,9 @@ func (c *scriptedClient) GetServerKeys(_ context.Context, s spec.ServerName) (gm
 	c.calls = append(c.calls, ClientCall{"get", a})
 	c.mu.Unlock()
 	d, ok := c.direct[a]
+	if ok && d.Kind == "empty" {
+		return gmsl.ServerKeys{}, nil // nothing, but no error either
+	}
 	if !ok || d.Kind != "resp" {
 		return gmsl.ServerKeys{}, errScripted
 	}
@@ -265,7 +300,7 @@ func (rc *respCtx) abstractTable(res map[gmsl.PublicKeyLookupRequest]gmsl.Public
 		}
 		srv := abstractServer(q.ServerName)
 		e := Entry{Key: "?"}
-		for _, n := range []string{"A0", "A1", "A2", "L", "imposter"} {
+		for _, n := range []string{"A0", "A1", "A2", "L", "P1", "PX", "R", "imposter"} {
 			if bytes.Equal(keyFor(rc.seed, srv, n).pub, v.Key) {
 				e.Key = n
 			}
@@ -482,10 +517,10 @@ func replayResp(rec *RespRec, seed int64, idx int) hx.Result {
 		return r
 	case "persp":
 		cl := &scriptedClient{rc: rc, lookup: map[string]ListScript{"notary": rec.P}}
-		f := &gmsl.PerspectiveKeyFetcher{PerspectiveServerName: notaryName,
-			PerspectiveServerKeys: map[gmsl.KeyID]ed25519.PublicKey{notaryKeyID: keyFor(seed, "notary", "P1").pub},
+		f := &gmsl.PerspectiveKeyFetcher{PerspectiveServerName: spec.ServerName(notaryName()),
+			PerspectiveServerKeys: map[gmsl.KeyID]ed25519.PublicKey{notaryKeyID(): keyFor(seed, "notary", "P1").pub},
 			Client:                cl}
-		reqs := map[gmsl.PublicKeyLookupRequest]spec.Timestamp{lookupReq("s1/k1"): rc.ms(-48), lookupReq("s2/k1"): rc.ms(-48)}
+		reqs := map[gmsl.PublicKeyLookupRequest]spec.Timestamp{lookupReq("s1/k1"): rc.ms(-48), lookupReq("s2/k1"): rc.ms(-48), lookupReq("notary/p1"): rc.ms(-48)}
 		res, err := f.FetchKeys(context.Background(), reqs)
 		got := rc.abstractTable(res)
 		if d, what := tableDiff(edOnly(rec.Tab), got, rec.P.Rs, true); d != "" {
